@@ -363,6 +363,20 @@ def assignment(ctx):
         if [m_[0] for m_ in ms_] in (["last", "unwrap"], ["last", "expect"]) and is_local(b_, p_tokens):
             return "last"
         e = peel(e)
+        if e.get("k") == "local":
+            # bound by a fixed-length slice pattern on the tokens: `[_, index_str, data_str, _]`
+            d = gdefs.get(e["id"]) or gdefs.get(canon(e["id"]))
+            if d and d[0] in ("arm", "letexpr", "let"):
+                scr = d[1]["scrut"] if d[0] == "arm" else d[1].get("init", {})
+                pats = [a_["pat"] for a_ in d[1]["arms"]] if d[0] == "arm" else [d[1]["pat"]]
+                if is_local(scr, p_tokens):
+                    for pat in pats:
+                        while pat.get("k") in ("pref", "pderef"):
+                            pat = pat["pat"]
+                        if pat.get("k") == "pslice" and "mid" not in pat and not pat.get("after"):
+                            for pos_, sp_ in enumerate(pat["before"]):
+                                if any(i_ == e["id"] or canon(i_) == canon(e["id"]) for _, i_ in pat_bindings(sp_)):
+                                    return pos_
         if e.get("k") == "index" and is_local(e["e"], p_tokens):
             i = resolve(e["i"])
             if i.get("k") == "lit":
@@ -374,39 +388,64 @@ def assignment(ctx):
         return None
 
     # token count: exactly 3 (bit vector) or 4 (array entry); anything else is rejected
-    is_array_expr = None
-    lens_ok = False
-    m = [n for n in gx.nodes if n.get("k") == "match" and [m_[0] for m_ in chain(resolve(n["scrut"]))[1]] == ["len"] and is_local(chain(resolve(n["scrut"]))[0], p_tokens)]
-    if m:
-        lens = {}
-        other_diverges = False
-        for a in m[0]["arms"]:
-            if a["pat"].get("k") == "plit":
-                lens[a["pat"]["v"]] = peel(a["body"]).get("v")
-            elif a["pat"].get("k") in ("pwild", "pbind"):
-                other_diverges = a["body"].get("ty") == "!" or norm_._diverges(a["body"])
-        lens_ok = lens == {3: False, 4: True} and other_diverges
-    else:
-        # `if !(3..=4).contains(&n) { panic }` / `if n < 3 || n > 4 { panic }` and `is_array = n == 4`
-        rejects = False
-        for n in gx.nodes:
-            if n.get("k") == "if" and "else" not in n and norm_._diverges(n["then"]):
-                for c_, pol in norm_.path_conditions(gx, n["then"]):
-                    if c_.get("k") == "mcall" and c_["name"] == "contains" and not pol:
-                        rng = resolve(c_["recv"])
-                        if rng.get("k") == "call" and (callee(rng) or "").endswith("RangeInclusive::new") and [peel(x).get("v") for x in rng["args"]] == [3, 4]:
-                            lb, lms = chain(resolve(c_["args"][0]))
-                            rejects = [m_[0] for m_ in lms] == ["len"] and is_local(lb, p_tokens)
-        for i_, d in gdefs.items():
-            if d[0] == "let" and "init" in d[1] and (d[2].get("ty") or "") == "bool":
-                e = resolve(d[1]["init"])
-                if e.get("k") == "binary" and e["op"] == "==" and (peel(e["r"]).get("v") == 4 or peel(e["l"]).get("v") == 4):
-                    other = e["l"] if peel(e["r"]).get("v") == 4 else e["r"]
-                    lb, lms = chain(resolve(other))
-                    if [m_[0] for m_ in lms] == ["len"] and is_local(lb, p_tokens):
-                        lens_ok = rejects
-    ctx.inst("R16.1", "reader:token-count", lens_ok, g["span"], "assignments must have 3 tokens (bit-vector) or 4 tokens (array entry), anything else must be rejected")
 
+    def is_len(e):
+        b_, ms_ = chain(resolve(e))
+        return [m_[0] for m_ in ms_] == ["len"] and is_local(b_, p_tokens)
+
+    def len_set_test(c):
+        """the set of lengths for which the condition holds, for the recognised forms; None otherwise"""
+        c = resolve(c)
+        if c.get("k") == "match" and is_len(c["scrut"]) and len(c["arms"]) == 2:
+            a0, a1 = c["arms"]
+            alts = pat_alts(a0["pat"])
+            if all(x.get("k") == "plit" for x in alts) and peel(a0["body"]).get("v") is True and a1["pat"].get("k") == "pwild" and peel(a1["body"]).get("v") is False:
+                return {x["v"] for x in alts}
+        if c.get("k") == "mcall" and c["name"] == "contains" and len(c["args"]) == 1 and is_len(c["args"][0]):
+            rng = resolve(c["recv"])
+            if rng.get("k") == "call" and (callee(rng) or "").endswith("RangeInclusive::new") and all(peel(x).get("k") == "lit" for x in rng["args"]):
+                lo, hi = [peel(x)["v"] for x in rng["args"]]
+                return set(range(lo, hi + 1))
+        if c.get("k") == "binary" and c["op"] == "==" and ((is_len(c["l"]) and peel(c["r"]).get("k") == "lit") or (is_len(c["r"]) and peel(c["l"]).get("k") == "lit")):
+            return {peel(c["r"]).get("v") if is_len(c["l"]) else peel(c["l"]).get("v")}
+        return None
+    rejects = False
+    # (a) `match tokens.len() { 3 => .., 4 => .., _ => panic }`
+    for n in gx.nodes:
+        if n.get("k") == "match" and is_len(n["scrut"]):
+            lits = {a["pat"]["v"] for a in n["arms"] if a["pat"].get("k") == "plit"}
+            other = [a for a in n["arms"] if a["pat"].get("k") in ("pwild", "pbind")]
+            if lits == {3, 4} and len(other) == 1 and (other[0]["body"].get("ty") == "!" or norm_._diverges(other[0]["body"])):
+                rejects = True
+        # (b) `if !<len in {3,4}> { panic }`
+        if n.get("k") == "if" and "else" not in n and (n["then"].get("ty") == "!" or norm_._diverges(n["then"])):
+            c = resolve(n["cond"])
+            neg = False
+            while c.get("k") == "unary" and c["op"] == "!":
+                neg, c = not neg, resolve(c["e"])
+            st_ = len_set_test(c)
+            if st_ == {3, 4} and neg:
+                rejects = True
+
+    def count_evidence(conds):
+        """the token count implied by the conditions under which a value is produced: 3, 4 or None"""
+        for c_, pol in conds:
+            if c_.get("k") == "armpat":
+                pat = c_["pat"]
+                while pat.get("k") in ("pref", "pderef"):
+                    pat = pat["pat"]
+                if pat.get("k") == "pslice" and "mid" not in pat and is_local(c_["scrut"], p_tokens) and pol:
+                    return len(pat["before"])
+                if pat.get("k") == "plit" and is_len(c_["scrut"]) and pol:
+                    return pat["v"]
+                if pat.get("k") == "plit" and isinstance(pat.get("v"), bool):
+                    st_ = len_set_test(c_["scrut"])
+                    if st_ and len(st_) == 1:
+                        return list(st_)[0] if pat["v"] else (7 - list(st_)[0] if list(st_)[0] in (3, 4) else None)
+            st_ = len_set_test(c_) if c_.get("k") != "armpat" else None
+            if st_ and len(st_) == 1 and list(st_)[0] in (3, 4):
+                return list(st_)[0] if pol else 7 - list(st_)[0]
+        return None
     def parse_of_token(e, k):
         e = norm_.value_source(gx, gdefs, e)
         while e.get("k") == "cast":
@@ -439,8 +478,33 @@ def assignment(ctx):
     rets = [n for n in gx.nodes if n.get("k") == "tuple" and len(n["es"]) == 3 and (n.get("ty") or "").startswith("(usize")]
     ok_id = bool(rets) and all(parse_of_token(r["es"][0], 0) for r in rets)
     ctx.inst("R16.1", "reader:id-at-0", ok_id, g["span"], "the state/input id must be read from token 0")
-    bv = [r for r in rets if peel(r["es"][2]).get("k") == "ctor" and callee(peel(r["es"][2])).endswith("InitValue::BitVec")]
-    ok_bv = len(bv) == 1 and from_bits(peel(bv[0]["es"][2])["args"][0]) == (1, None)
+    leaves = []
+    for r in rets:
+        pre = norm_.path_conditions(gx, r)
+        for cs, lf in norm_.result_table(gx, r["es"][2]):
+            leaves.append((pre + cs, peel(lf)))
+    bv = [(cs, lf) for cs, lf in leaves if lf.get("k") == "ctor" and callee(lf).endswith("InitValue::BitVec")]
+    arr = [(cs, lf) for cs, lf in leaves if lf.get("k") == "ctor" and callee(lf).endswith("InitValue::Array")]
+    # an `is_array` flag computed from the length: `let is_array = match len {3 => false, 4 => true, ..}` / `len == 4`
+
+    def count_of(conds):
+        n_ = count_evidence(conds)
+        if n_ is not None:
+            return n_
+        for c_, pol in conds:
+            c2 = c_
+            if c2.get("k") == "match" and is_len(c2["scrut"]):
+                tbl = {a["pat"]["v"]: peel(a["body"]).get("v") for a in c2["arms"] if a["pat"].get("k") == "plit"}
+                hit = [k_ for k_, v_ in tbl.items() if v_ is pol]
+                if len(hit) == 1:
+                    return hit[0]
+        return None
+    lens_ok = rejects and len(bv) == 1 and len(arr) == 1 and count_of(arr[0][0]) == 4 and count_of(bv[0][0]) in (3, None if False else 3)
+    if rejects and len(bv) == 1 and len(arr) == 1 and count_of(arr[0][0]) == 4 and count_of(bv[0][0]) is None:
+        # the bit-vector value is the alternative to the 4-token case (anything but 3 or 4 was rejected before)
+        lens_ok = all((c_.get("k") == "armpat" or not pol or True) for c_, pol in bv[0][0])
+    ctx.inst("R16.1", "reader:token-count", lens_ok, g["span"], "assignments must have 3 tokens (bit-vector) or 4 tokens (array entry), anything else must be rejected")
+    ok_bv = len(bv) == 1 and from_bits(bv[0][1]["args"][0]) == (1, None)
     ctx.inst("R16.1", "reader:bv-value-at-1", ok_bv, g["span"], "a bit-vector value must be read from token 1 in binary")
     stores = [n for n in gx.nodes if n.get("k") == "mcall" and n["name"] == "store" and len(n["args"]) == 2]
     ok_idx = ok_data = False
@@ -461,21 +525,20 @@ def assignment(ctx):
     for r in rets:
         ok_name = ok_name and name_cut(gx, gdefs, r["es"][1], tok_k)
     ctx.inst("R16.1", "reader:name-last-suffix-cut", ok_name, g["span"], "the name must be the last token with everything from the first @ or # removed")
-    arr = [r for r in rets if peel(r["es"][2]).get("k") == "ctor" and callee(peel(r["es"][2])).endswith("InitValue::Array")]
     rec = False
     if len(arr) == 1 and len(stores) == 1:
-        av = peel(arr[0]["es"][2])
+        av = arr[0][1]
         idxs = norm_.value_source(gx, gdefs, av["args"][1])
         idx_locals = [x for x in walk(idxs) if x.get("k") == "local"]
-        rec = is_local(av["args"][0], local_id(stores[0]["recv"])) and len(idx_locals) == 1 and is_local(idx_locals[0], local_id(stores[0]["args"][0])) and gx.precedes(stores[0], arr[0])
+        rec = is_local(av["args"][0], local_id(stores[0]["recv"])) and len(idx_locals) == 1 and is_local(idx_locals[0], local_id(stores[0]["args"][0])) and gx.precedes(stores[0], av)
     ctx.inst("R16.2", "reader:array-entry-stored", rec, g["span"], "an array entry must be stored at its index and the index recorded")
 
 
 def name_cut(gx, gdefs, e, tok_k):
     """e is the last token with everything from the first '@' or '#' removed: `.split('@').next().unwrap().split('#').next().unwrap()`
     (either order) or `match s.find(['@', '#']) { Some(i) => &s[..i], None => s }`"""
+    b_, ms_ = norm_.deep_chain(gx, gdefs, e)
     e = norm_.value_source(gx, gdefs, e)
-    b_, ms_ = chain(e)
     names = [m_[0] for m_ in ms_]
     if tok_k(b_) == "last" and names == ["split", "next", "unwrap", "split", "next", "unwrap"]:
         chars = {peel(ms_[0][1][0]).get("v"), peel(ms_[3][1][0]).get("v")}
